@@ -3,7 +3,7 @@
    SDK's codec with the published schema (the table P extracted from proto/ommx/v1/*.proto, file named by the
    environment variable SCHEMA). *)
 EXTENDS Wire, Json, IOUtils
-WireEvents == {"schema_msg", "schema_enum", "wire_decode", "wire_encode", "artifact_file"}
+WireEvents == {"schema_msg", "schema_enum", "wire_decode", "wire_encode", "wire_redecode", "artifact_file"}
 SchemaP == IF "SCHEMA" \in DOMAIN IOEnv THEN JsonDeserialize(IOEnv.SCHEMA).messages ELSE <<>>
 WOk(e) == e.out.tag = "ok"
 ClausesSchema(e) ==
@@ -37,8 +37,15 @@ ClausesArtifactFile(e) ==
            LET l == e.out.layers[i] IN
            /\ KindType(l.kind) # "?" /\ AsOfW(l, l.kind).tag = "ok" /\ l.raw.tag = "ok"
            /\ LET t == Decode(SchemaP, KindType(l.kind), l.raw.bytes) IN t.ut = 0 /\ t.bad = 0 /\ Len(t.fields) >= 1 ]
+\* bytes written by the SDK (a) and their canonical re-encoding by the specification (b), both read back by prost
+ClausesWireRedecode(e) ==
+  LET T == e.in.type IN
+  [ no_error |-> WOk(e),
+    redecode_equal |-> WOk(e) /\ e.out.equal,
+    reencoding_same_content |-> Strip(SchemaP, T, Decode(SchemaP, T, e.in.a)) = Strip(SchemaP, T, Decode(SchemaP, T, e.in.b)) ]
 ClausesWire(e) == CASE e.ev \in {"schema_msg", "schema_enum"} -> ClausesSchema(e)
                     [] e.ev = "wire_decode" -> ClausesWireDecode(e)
                     [] e.ev = "wire_encode" -> ClausesWireEncode(e)
+                    [] e.ev = "wire_redecode" -> ClausesWireRedecode(e)
                     [] e.ev = "artifact_file" -> ClausesArtifactFile(e)
 =============================================================================
